@@ -13,6 +13,16 @@ Theorem C17_same_transition_and_class :
     o_res (snd (step lm lu V1 c o)) = o_res (snd (step lm lu V2 c o)).
 Proof. exact clients_same_transition. Qed.
 
+(* ... lifted to whole histories over any number of clients: after every history of admissible requests the two worlds
+   (all clients, all tables, all indexes, failure flags, registries) are equal and the result classes are the same
+   sequence *)
+Theorem C17_same_world_after_every_history :
+  forall lm lu ops w,
+    Forall v1_admissible ops ->
+    fst (run lm lu V1 w ops) = fst (run lm lu V2 w ops) /\
+    map o_res (snd (run lm lu V1 w ops)) = map o_res (snd (run lm lu V2 w ops)).
+Proof. exact clients_same_history. Qed.
+
 (* returned items differ only by the v2 output mapper, which is the identity without empty containers *)
 Theorem C17_output_mappers_agree : forall i, item_no_empty i = true -> out_item V2 i = out_item V1 i.
 Proof. intros i H. rewrite out_item_v2_id by exact H. reflexivity. Qed.
